@@ -37,7 +37,12 @@ const componentRule = "component: case i of seed s is a pure function plan(s,i):
 	"reorganisation are kept back while the idle rescan takes the Update, then flow at once / after the rescan went quiet / never; (racing) the " +
 	"rescan is parked in the tip block's connected callback, notifications pile up in its subscription, the Update call waits on the update " +
 	"channel, the gate opens; (catchup, catchup-after-rewind) the same while parked in the middle of a walk by height; crossed with " +
-	"f<h<cur, h<=f, h==cur, h>cur and silent / notifying rewinds; its fingerprint adds the measured relation at the moment the Update was sent."
+	"f<h<cur, h<=f, h==cur, h>cur and silent / notifying rewinds; its fingerprint adds the measured relation at the moment the Update was sent. " +
+	"Family opaque-spend (opaque.go; the first case does not depend on the seed): watched OUTPOINTS (given at the start, added by an Update, learnt " +
+	"from a payment to a watched address) are spent through inputs from which txscript.ComputePkScript cannot recover the spent script (empty " +
+	"signature script and witness; signature script not push-only; one that does not parse; key-path-looking witness), the spends met by the walk " +
+	"by height, by notification, again after an Update with Rewind (silent / notifying) and on the longer branch of a reorganisation; every fifth " +
+	"history of the four older families is generated with 35% such inputs. The reference (spends a then-watched outpoint) never looks at scripts."
 
 type witness struct {
 	Case        int      `json:"case"`
@@ -59,6 +64,12 @@ func describe(res *Result) witness {
 		p.StartKind, p.StartNode.Height, short(p.StartNode.Hash), p.Trunk0.Height, p.StartTimeK, p.EndKind, p.Ntfn, p.StaleFilter, p.Current0)
 	if p.Stale != nil {
 		w.Start += " | stale-rewind: " + p.Stale.String()
+	}
+	if p.Opaque != nil {
+		w.Start += " | opaque-spend: " + p.Opaque.String()
+	}
+	if p.OpaquePct > 0 {
+		w.Start += fmt.Sprintf(" | %d%% of the generated inputs unrecoverable", p.OpaquePct)
 	}
 	w.Watch = fmt.Sprintf("addrs=%v inputs=%d byScript=%d", p.InitKeys, len(p.InitInputs), len(p.InitScripts))
 	for _, o := range p.Ops {
@@ -121,6 +132,10 @@ func Component(r *evid.Run) {
 	}
 	for j := 0; j < ns; j++ {
 		indices = append(indices, StaleBase+j)
+	}
+	// Family opaque-spend: its own index range (OpaqueBase+j), fixed case first.
+	for j, no := 0, r.Pick(QuickOpaque, ThoroughOpaque); j < no; j++ {
+		indices = append(indices, OpaqueBase+j)
 	}
 	if v := os.Getenv("C09_ONLY"); v != "" {
 		// Reproduction aid: run the single case named in a witness
@@ -193,6 +208,23 @@ func Component(r *evid.Run) {
 		r.Count("relevant_txs_only_via_outpoint_from_earlier_match", int64(st.TxFromGrown))
 		r.Count("relevant_txs_only_via_update", int64(st.TxFromUpdate))
 		r.Count("blocks_connected_after_filter_reported_absent", int64(st.AbsentFilterBlocks))
+		r.Count("relevant_txs_spending_watched_outpoint_via_unrecoverable_input", int64(st.TxSpendsOpaque))
+		r.Count("relevant_txs_spending_outpoint_learnt_from_address_via_unrecoverable_input", int64(st.TxSpendsOpaqueGrown))
+		if p.OpaquePct > 0 {
+			r.Count("histories_generated_with_unrecoverable_inputs", 1)
+		}
+		if op := p.Opaque; op != nil {
+			r.Count("opaque_spend_cases", 1)
+			r.Count("opaque_spend_forced_spends_planned", int64(op.Planned))
+			r.Count("opaque_spend_forced_spends_of_learnt_outpoints_planned", int64(op.GrownSpent))
+			if op.Missed > 0 {
+				r.Count("opaque_spend_forced_spends_not_placed", int64(op.Missed))
+			}
+			if op.Fixed {
+				r.Count("opaque_spend_fixed_cases", 1)
+				r.Count("opaque_spend_fixed_case_delivered_unrecoverable_spends", int64(st.TxSpendsOpaque))
+			}
+		}
 		r.Count("updates", int64(res.Updates))
 		r.Count("rewinds", int64(res.Rewinds))
 		r.Count("reorgs_injected", int64(res.Reorgs))
